@@ -226,5 +226,6 @@ func lemmaCompressRoundTripBytes(rec *Record) (err error) {
 //@   requires cmem.DBRL.GetData.Size >= 0 && cmem.DBRL.GetData.Size < 1<<60
 //@   modifies elems(ghostDecompressDone), cmem.DBRL.GetData.Size, cmem.DBRL.GetData.MaxSize, cmem.DBRL.GetData.Count, cmem.DBRL.GetData.MaxCount, cmem.AllocRL.Size, cmem.AllocRL.MaxSize, cmem.AllocRL.Count, cmem.AllocRL.MaxCount, ghostFail()
 //@   ensures res != nil ==> res.Payload != nil && cmem.DBRL.GetData.Count == old(cmem.DBRL.GetData.Count)+1
+//@   ensures res != nil ==> ghostDecompressDone[res.Payload]      // C10: every record handed out went through Decompress (which clears the server's compress flag unless the stream is invalid)
 //@   ensures res != nil && !specIsCompressed(res.Payload.Flag) ==> cmem.DBRL.GetData.Size == old(cmem.DBRL.GetData.Size)+int64(res.Payload.Cap)
 //@   ensures res == nil ==> cmem.DBRL.GetData.Count == old(cmem.DBRL.GetData.Count) && cmem.DBRL.GetData.Size == old(cmem.DBRL.GetData.Size)
